@@ -91,6 +91,16 @@ def cases(tier, seed, args):
         for i in range(2 if q else 6):
             out.append(dict(t='perm_mm', kind=['vmfcacgmm', 'gcacgmm'][i % 2], L=[[40], [33], [70]][i % 3], K=2 + (i // 2) % 2, D=3, N=[256, 300, 130][i % 3], wca=(-1,),
                             iterations=2, seed=int(rng.integers(1 << 30)), sam=False, saliency=False, regime='regular', params_only=True))
+        # frequency permutation problem solved inside EM (inline aligner): disjoint activities, two classes exchanged in two bins
+        for i in range(4 if q else 16):
+            out.append(dict(t='perm_mm', kind=['cacgmm', 'cwmm', 'cacgmm', 'cbmm'][i % 4], L=[7], K=3 + (i // 4) % 2, D=[4, 3, 4, 3][i % 4], N=60, wca=[(-3,), (-3, -1)][i % 2],
+                            iterations=[2, 3, 5, 2][i % 4], seed=int(rng.integers(1 << 30)), sam=False, saliency=False, regime='regular',
+                            pa_struct=True))
+        # very tight directional classes: several classes are clipped to the same concentration limit (bit-identical values)
+        for i in range(4 if q else 16):
+            kind = ['vmfmm', 'vmfcacgmm'][i % 2]
+            out.append(dict(t='perm_mm', kind=kind, L=[2] if kind in ml.INTEGRATION else [[], [2]][(i // 2) % 2], K=3, D=3, N=int(rng.integers(24, 36)), wca=(-1,),
+                            iterations=[2, 3][i % 2], seed=int(rng.integers(1 << 30)), sam=False, saliency=False, regime='regular', tight=True))
         # hard start in which one class is empty (not the last one): its scatter is exactly zero in the first M-step
         for i in range(6 if q else 36):
             kind = ['cacgmm', 'gcacgmm', 'cacgmm', 'cacgmm', 'cacgmm', 'cwmm'][i % 6]   # (an empty vMF class has no mean: outside the domain)
@@ -423,7 +433,33 @@ def _perm_mm(case):
         init = ml.make_init(rng, L, K, N)
         init[..., 1, :] = init[..., 0, :] * (1 + 1e-3 * rng.uniform(-1, 1, size=init[..., 0, :].shape))
         init = init / init.sum(-2, keepdims=True)
+    if case.get('tight'):
+        labt = rng.integers(0, K, size=(*L, N))
+        labt[..., :K] = np.arange(K)
+        key_ = 'emb' if kind in ml.INTEGRATION else 'y'
+        E_ = data[key_].shape[-1]
+        protos = ml.unit(rng.normal(size=(K, E_)))
+        data[key_] = ml.unit(protos[labt] + 1e-3 * rng.normal(size=(*L, N, E_)))
+        init = 0.9 * np.moveaxis(np.eye(K)[labt], -1, -2) + 0.1 / K
     opts = _opts(case, rng, L, N, kind)
+    if case.get('pa_struct'):
+        from pb_bss.permutation_alignment import DHTVPermutationAlignment
+        F = L[0]
+        act = np.zeros((K, N))
+        for k in range(K):
+            act[k, k * N // K:(k + 1) * N // K] = 1
+        labp = np.argmax(act, axis=0)
+        steer = rng.normal(size=(F, K, D)) + 1j * rng.normal(size=(F, K, D))
+        data['y'] = steer[:, labp, :] * (rng.normal(size=(F, N, 1)) + 1j * rng.normal(size=(F, N, 1))) \
+            + 0.1 * (rng.normal(size=(F, N, D)) + 1j * rng.normal(size=(F, N, D)))
+        init = 0.8 * np.repeat(act[None], F, axis=0) + 0.1
+        ex = list(range(K))
+        ex[-1], ex[-2] = ex[-2], ex[-1]
+        init[[2, 5]] = init[[2, 5]][:, ex]                # the last two classes are exchanged in two bins, class 0 is consistent
+        init = init / init.sum(axis=1, keepdims=True)
+        opts['inline_permutation_aligner'] = DHTVPermutationAlignment(
+            stft_size=2 * (F - 1), segment_start=0, segment_width=F, segment_shift=1, main_iterations=5, sub_iterations=2,
+            similarity_metric='cos')
     if case.get('inline_pa'):
         opts['inline_permutation_alignment'] = True
     sam = None
@@ -453,7 +489,7 @@ def _perm_mm(case):
         init_b = init_b.astype(case['init_dtype'])
     mb, eb = _cfit(kind, data, init_b, case['iterations'], opts_b, shared)
     fp = f't=perm_mm;model={kind};wca={case["wca"]};it={case["iterations"]};sam={case.get("sam")};regime={regime};inline_pa={bool(case.get("inline_pa"))}' \
-         f';shared_trainer={shared is not None};init_dtype={case.get("init_dtype")}'
+         f';shared_trainer={shared is not None};init_dtype={case.get("init_dtype")}' + (';inline_aligner' if case.get('pa_struct') else '') + (';tight' if case.get('tight') else '')
     key = f'perm:{case["seed"]}'
     if ma is None or mb is None:
         # a failure of only ONE of the two runs is label dependent behaviour
